@@ -210,10 +210,14 @@ class Model:
                 out.append(ind * 2 + '<location %s>' % attrs)
                 if l.name:
                     out.append(ind * 3 + '<name x="1" y="2">%s</name>' % l.name)
+                labs = []
                 if l.inv is not None:
-                    out.append(ind * 3 + '<label kind="invariant" x="1" y="2">' + block(R(l.inv)) + '</label>')
+                    labs.append(ind * 3 + '<label kind="invariant" x="1" y="2">' + block(R(l.inv)) + '</label>')
                 if l.rate is not None:
-                    out.append(ind * 3 + '<label kind="exponentialrate">' + block(R(l.rate)) + '</label>')
+                    labs.append(ind * 3 + '<label kind="exponentialrate">' + block(R(l.rate)) + '</label>')
+                if nz.get('rate_first'):
+                    labs.reverse()      # the reader takes the labels of a location in any order
+                out += labs
                 if nz.get('comments'):
                     out.append(ind * 3 + '<label kind="comments">a comment &amp; more</label>')
                 if l.urgent:
